@@ -1,7 +1,9 @@
 #!/bin/bash
-# usage: tools/ownmatrix.sh  – every seeded change against the check of its own property (quick); one line each
+# usage: tools/ownmatrix.sh [seed names...]  – every (or the named) seeded change against the check of its own property (quick); one line each
 cd "$(dirname "$0")/.."
-for s in seeded/*/; do
-  id=$(basename $s | cut -d- -f1)
+LIST="$@"; [ -z "$LIST" ] && LIST=$(ls seeded)
+for n in $LIST; do
+  s=seeded/$n/
+  id=$(echo $n | cut -d- -f1)
   tools/matrix.sh "$id" "$s"
 done
